@@ -139,6 +139,36 @@ Proof.
   now rewrite (spec_by_doc c _ KDash dd (spec_selected_only_dash c pos suf dd S) eq_refl).
 Qed.
 
+(* an EXPLICIT configuration that says nothing about the unit (empty / comment-only file, `{}`, only unrelated sections, no
+   ignore list) means "all defaults": the run equals the run in a directory without any configuration, whatever the project's
+   own .thailint.yaml / .thailint.json / pyproject.toml say - an explicit file that is present but empty is not "no file given" *)
+Definition no_config : project :=
+  {| p_yaml := Absent; p_json := Absent; p_pyproject := Absent; p_dash := None; p_ignore_file := []; p_subdir := false |}.
+
+Theorem explicit_unrelated_config_is_defaults q c fy fj fp pos suf dd :
+  flags_off q -> case_good c = true -> lang_good c = true -> smem suf doc_valid_suffixes = true ->
+  spec_discovered {| p_yaml := fy; p_json := fj; p_pyproject := fp; p_dash := None; p_ignore_file := []; p_subdir := false |} <> LErr ->
+  section_of (c_unit c) dd = [] -> str_list (get "ignore" dd) = [] ->
+  run q (with_proj c {| p_yaml := fy; p_json := fj; p_pyproject := fp;
+                        p_dash := Some {| d_pos := pos; d_suffix := suf; d_file := Doc dd |}; p_ignore_file := []; p_subdir := false |})
+  = run q (with_proj c no_config).
+Proof.
+  intros H G L S D Hs Hi. rewrite (dash_wins q c fy fj fp pos suf dd H G L S D).
+  rewrite !(run_exact q _ H) by assumption.
+  unfold spec. rewrite (spec_selected_only_dash c pos suf dd S).
+  change (spec_selected (with_proj c no_config)) with (LDoc KNone []).
+  cbn [c_proj with_proj only_dash no_config p_ignore_file c_unit c_fname c_metrics app].
+  rewrite Hi, Hs. reflexivity.
+Qed.
+
+Theorem explicit_empty_config_is_defaults q c fy fj fp pos suf :
+  flags_off q -> case_good c = true -> lang_good c = true -> smem suf doc_valid_suffixes = true ->
+  spec_discovered {| p_yaml := fy; p_json := fj; p_pyproject := fp; p_dash := None; p_ignore_file := []; p_subdir := false |} <> LErr ->
+  run q (with_proj c {| p_yaml := fy; p_json := fj; p_pyproject := fp;
+                        p_dash := Some {| d_pos := pos; d_suffix := suf; d_file := Doc [] |}; p_ignore_file := []; p_subdir := false |})
+  = run q (with_proj c no_config).
+Proof. intros H G L S D. now apply explicit_unrelated_config_is_defaults. Qed.
+
 (* a CLI threshold option beats the section and every per-language sub-section *)
 Theorem cli_option_wins q u lopts lang opt ovs cfg z :
   flags_off q -> In u units -> In lang all_languages -> ~ In opt all_languages ->
